@@ -34,3 +34,9 @@ Definition dec_prop (c : nat * list Z * cres (val * Z) * option (cres (val * Z))
   end.
 Definition pf_dec := Eval vm_compute in failing dec_prop cases_dec.
 Print pf_dec.
+
+(* the generated and the reference decoder also agree (failure kind, value) when
+   both decode into objects left by the same earlier decode *)
+Definition reuse_prop (c : nat * bool * bool) : bool := let '(i, g, r) := c in g && r.
+Definition pf_reuse := Eval vm_compute in failing reuse_prop cases_reuse.
+Print pf_reuse.
